@@ -127,6 +127,11 @@ class SpecialFamily(Family):
                         if r is not None:
                             self.add_stats(r[1])
                             scripts.append((gen.script_id(r[0]), r[0], None))
+                    for _ in range(6 * mult):
+                        r = gen.gen_move_elementwise(L, K, rng)
+                        if r is not None:
+                            self.add_stats(r[1])
+                            scripts.append((gen.script_id(r[0]), r[0], None))
                 jobs.append(Job(L, K, scripts, tag="special"))
         return jobs
 
